@@ -141,6 +141,22 @@ def _worker_run(args):
         return {"harness_error": traceback.format_exc(), "unit": unit}
 
 
+def _execute_with_noise(execute, case):
+    """Run one case; fold what the background-noise ops did into the result (faults fired, digest)."""
+    from . import noise
+
+    noise.take()
+    res = execute(case)
+    fired, log = noise.take()
+    if fired:
+        f = dict(res.get("fired", {}))
+        for k, v in fired.items():
+            f[k] = f.get(k, 0) + v
+        res["fired"] = f
+        res["digest"] = seeds.digest([res.get("digest", ""), log])
+    return res
+
+
 class Acc:
     """What a unit reports back; merged in the parent."""
 
@@ -163,7 +179,7 @@ class Acc:
 
         try:
             with watchdog(seconds):
-                res = isolated_call(execute, case) if isolate else execute(case)
+                res = isolated_call(_execute_with_noise, execute, case) if isolate else _execute_with_noise(execute, case)
         except HarnessTimeout:
             raise RuntimeError("case did not finish within %ds: %s" % (seconds, json.dumps(case)[:2000]))
         self.add_case_result(case, res)
